@@ -177,7 +177,8 @@ def tag_strings(draw):
 
 ipv4 = st.lists(st.integers(0, 255), min_size=4, max_size=4).map(lambda p: ".".join(map(str, p)))
 links = st.one_of(st.integers(0, 255), st.integers(0, 255).map(str), ipv4, st.binary(min_size=1, max_size=9))
-ports = st.one_of(st.sampled_from(sorted(RP.PORT_NAMES)), st.integers(1, 14))
+ports = st.one_of(st.sampled_from(sorted(RP.PORT_NAMES)), st.integers(1, 14), st.integers(1, 14),
+                  st.sampled_from([15, 16, 17, 31, 32, 255, 256, 65535]), st.integers(15, 65535))   # 15 and above: extended port identifier
 
 
 def plan(tier):
